@@ -11,6 +11,12 @@ def R(st, v):
 
 class BuiltinMixin:
     # ------------------------------------------------------------------ functions
+    def bi_object___new__(self, st, a, kw, n):
+        ty = a[0].ty or ""
+        if not ty.startswith("type:"):
+            raise Unsupported("object.__new__ of a non-constant class")
+        return R(st, self.alloc(st, ty[5:]))
+
     def bi_len(self, st, a, kw, n):
         x = a[0]; ty = base_type(x.ty)
         if ty in ("list", "set", "tuple"): return R(st, V(IntV(z3.Length(self.elems(st, x))), "int"))
@@ -38,6 +44,8 @@ class BuiltinMixin:
         if ty == "bool": return R(st, V(IntV(z3.If(Val.b(x.t), 1, 0)), "int"))
         if ty == "float":
             return R(st, V(IntV(z3.ToInt(Val.f(x.t))), "int"))    # exact for the integral values it is used on
+        if ty == "str" and self.spec_depth:
+            return R(st, V(IntV(int_of_str(Val.s(x.t))), "int"))
         if ty == "str":
             s = Val.s(x.t)
             ok = st.copy(); ok.assume(is_intstr(s))
@@ -102,7 +110,7 @@ class BuiltinMixin:
         if isinstance(item, tuple):
             raise Unsupported("materialising an iterator of tuples")
         st.assume(z3.Length(res) == it.length)
-        st.assume(z3.ForAll([k], z3.Implies(z3.And(0 <= k, k < it.length), res[k] == item.t), patterns=[res[k]]))
+        st.assume(qforall([k], z3.Implies(z3.And(0 <= k, k < it.length), res[k] == item.t), patterns=[res[k]]))
         return res
 
     def bi_set(self, st, a, kw, n):
@@ -112,7 +120,7 @@ class BuiltinMixin:
         res = z3.Const(fresh_name("set"), SeqV)
         seq = self.elems(st, src)
         x = fresh_val("x")
-        st.assume(z3.ForAll([x], z3.Contains(res, z3.Unit(x)) == z3.Contains(seq, z3.Unit(x))))
+        st.assume(qforall([x], z3.Contains(res, z3.Unit(x)) == z3.Contains(seq, z3.Unit(x))))
         return R(st, self.new_list(st, res, "set" + (f"[{elem_type(src.ty)}]" if elem_type(src.ty) else "")))
 
     def bi_dict(self, st, a, kw, n):
@@ -135,7 +143,7 @@ class BuiltinMixin:
         res = z3.Const(fresh_name("sorted"), SeqV)
         x = fresh_val("x")
         st.assume(z3.Length(res) == z3.Length(seq))
-        st.assume(z3.ForAll([x], z3.Contains(res, z3.Unit(x)) == z3.Contains(seq, z3.Unit(x))))
+        st.assume(qforall([x], z3.Contains(res, z3.Unit(x)) == z3.Contains(seq, z3.Unit(x))))
         self.sorted_info[res.decl().name()] = (seq, keyfn, ety)
         if keyfn is not None and isinstance(keyfn, ast.Lambda):
             # adjacent order on integer keys / sort_key ghost for others
@@ -145,7 +153,7 @@ class BuiltinMixin:
             ka = self.ev1(s2, keyfn.body)
             s2.env[keyfn.args.args[0].arg] = V(res[k + 1], ety)
             kb = self.ev1(s2, keyfn.body)
-            st.assume(z3.ForAll([k], z3.Implies(z3.And(0 <= k, k + 1 < z3.Length(res)), self.key_le(ka, kb)), patterns=[res[k]]))
+            st.assume(qforall([k], z3.Implies(z3.And(0 <= k, k + 1 < z3.Length(res)), self.key_le(ka, kb)), patterns=[res[k]]))
         return res
 
     def key_le(self, a, b):
@@ -208,16 +216,13 @@ class BuiltinMixin:
             st.assume(z3.Length(res) == z3.Length(seq))
             if ety in self.reg.classes and ety not in self.reg.enums:
                 # fresh, pairwise distinct objects with equal (scalar) fields
+                # block allocation: element k of the copy lives at address base + k
                 base = fresh_int("dcbase")
-                st.assume(base == self.frontier + st.nalloc)
+                st.assume(base == st.front)
+                st.front = base + z3.Length(seq)
                 st.nalloc += 1
-                self.frontier_blocks.append((base, z3.Length(seq)))
-                # block allocation: addresses base*BIG.. are modelled through an injective ghost function
-                addr = z3.Function(fresh_name("dcaddr"), Int, Int)
-                k2 = fresh_int("k")
-                st.assume(z3.ForAll([k], z3.Implies(z3.And(0 <= k, k < z3.Length(seq)),
-                          z3.And(res[k] == RefV(addr(k)), addr(k) < 0, addr(k) > -10**9 * (1 + st.nalloc) - 10**9, addr(k) <= -10**9 * (1 + st.nalloc))), patterns=[res[k]]))
-                st.assume(z3.ForAll([k, k2], z3.Implies(z3.And(0 <= k, k < k2, k2 < z3.Length(seq)), addr(k) != addr(k2)), patterns=[addr(k), addr(k2)]))
+                addr = lambda j: base + j   # noqa
+                st.assume(qforall([k], z3.Implies(z3.And(0 <= k, k < z3.Length(seq)), res[k] == RefV(base + k)), patterns=[res[k]]))
                 for c in self.reg.mro(ety):
                     for f, ft in self.reg.classes.get(c, {}).get("fields", {}).items():
                         if base_type(ft) not in ("int", "str", "bool", "float"):
@@ -225,9 +230,9 @@ class BuiltinMixin:
                         arr = st.field(f)
                         newarr = z3.Const(fresh_name("H_" + f), field_sort(f))
                         o = fresh_int("o")
-                        st.assume(z3.ForAll([k], z3.Implies(z3.And(0 <= k, k < z3.Length(seq)),
+                        st.assume(qforall([k], z3.Implies(z3.And(0 <= k, k < z3.Length(seq)),
                                   z3.Select(newarr, addr(k)) == z3.Select(arr, Val.r(seq[k]))), patterns=[addr(k)]))
-                        st.assume(z3.ForAll([o], z3.Implies(o > -10**9, z3.Select(newarr, o) == z3.Select(arr, o)), patterns=[z3.Select(newarr, o)]))
+                        st.assume(qforall([o], z3.Implies(z3.Or(o < base, o >= base + z3.Length(seq)), z3.Select(newarr, o) == z3.Select(arr, o)), patterns=[z3.Select(newarr, o)]))
                         st.heap[f] = newarr
                         st.writes.append((f, "fresh"))
             else:
@@ -284,7 +289,7 @@ class BuiltinMixin:
         other = self.iter_to_seq(st, self.iter_seq(st, a[0]))
         res = z3.Const(fresh_name("upd"), SeqV)
         x = fresh_val("x")
-        st.assume(z3.ForAll([x], z3.Contains(res, z3.Unit(x)) == z3.Or(z3.Contains(seq, z3.Unit(x)), z3.Contains(other, z3.Unit(x)))))
+        st.assume(qforall([x], z3.Contains(res, z3.Unit(x)) == z3.Or(z3.Contains(seq, z3.Unit(x)), z3.Contains(other, z3.Unit(x)))))
         st.write("$elems", Val.r(recv.t), res)
         return R(st, V(NONE, "none"))
 
@@ -297,7 +302,7 @@ class BuiltinMixin:
         if self.feasible(ok):
             res = z3.Const(fresh_name("rem"), SeqV)
             x = fresh_val("x")
-            ok.assume(z3.ForAll([x], z3.Contains(res, z3.Unit(x)) == z3.And(z3.Contains(seq, z3.Unit(x)), x != a[0].t)))
+            ok.assume(qforall([x], z3.Contains(res, z3.Unit(x)) == z3.And(z3.Contains(seq, z3.Unit(x)), x != a[0].t)))
             ok.assume(z3.Length(res) == z3.Length(seq) - 1)
             ok.write("$elems", Val.r(recv.t), res)
             out.append(Res(ok, V(NONE, "none")))
@@ -306,24 +311,34 @@ class BuiltinMixin:
         return out
 
     def m_dict_get(self, st, recv, a, kw, lineno):
-        has = z3.Contains(self.dkeys(st, recv), z3.Unit(a[0].t))
+        self.touch_key(st, a[0])
+        has = self.dhas(st, recv, a[0].t)
         dflt = a[1].t if len(a) > 1 else NONE
         vt = elem_type(recv.ty)
-        return R(st, V(z3.If(has, z3.Select(self.dmap(st, recv), a[0].t), dflt), vt if (len(a) > 1 and a[1].ty == vt) else (("opt:" + vt) if vt else None)))
+        f = self.entry_fact(st, recv, a[0], V(z3.Select(self.dmap(st, recv), a[0].t), vt))
+        if f is not None:
+            st.assume(z3.Implies(has, f))
+        if vt:
+            tmp = State(); tmp.heap = st.heap; tmp.front = st.front
+            self.assume_type(tmp, V(z3.Select(self.dmap(st, recv), a[0].t), vt))
+            if tmp.pc:
+                st.assume(z3.Implies(has, z3.And(*tmp.pc)))     # entries of a typed dict hold values of the declared type
+        return R(st, self.typed(st, V(z3.If(has, z3.Select(self.dmap(st, recv), a[0].t), dflt), vt if (len(a) > 1 and a[1].ty == vt) else (("opt:" + vt) if vt else None))))
 
     def m_dict_setdefault(self, st, recv, a, kw, lineno):
-        has = z3.Contains(self.dkeys(st, recv), z3.Unit(a[0].t))
+        has = self.dhas(st, recv, a[0].t)
         cur = z3.Select(self.dmap(st, recv), a[0].t)
         val = z3.If(has, cur, a[1].t)
         self.dict_set(st, recv, a[0], V(val, a[1].ty))
         return R(st, V(val, a[1].ty))
 
     def m_dict_values(self, st, recv, a, kw, lineno):
+        self.dict_link(st, recv)
         keys, mp = self.dkeys(st, recv), self.dmap(st, recv)
         res = z3.Const(fresh_name("vals"), SeqV)
         k = fresh_int("k")
         st.assume(z3.Length(res) == z3.Length(keys))
-        st.assume(z3.ForAll([k], z3.Implies(z3.And(0 <= k, k < z3.Length(keys)), res[k] == z3.Select(mp, keys[k])), patterns=[res[k]]))
+        st.assume(qforall([k], z3.Implies(z3.And(0 <= k, k < z3.Length(keys)), res[k] == z3.Select(mp, keys[k])), patterns=[res[k]]))
         return R(st, self.new_list(st, res, "list" + (f"[{elem_type(recv.ty)}]" if elem_type(recv.ty) else "")))
 
     def m_dict_update(self, st, recv, a, kw, lineno):
